@@ -94,6 +94,9 @@ impl<'h> PathObjectPatternGenerator<'h> {
     pub fn generate(&mut self) -> Vec<Pattern> {
         let orig_pattern = self.generate_();
 
+        #[cfg(rosu_pp_verif)]
+        crate::mania::convert::verif_gen::trace_slider_end(self);
+
         if orig_pattern.hit_objects.len() == 1 {
             return vec![orig_pattern];
         }
@@ -546,5 +549,38 @@ impl<'h> PathObjectPatternGenerator<'h> {
         } {}
 
         initial_column
+    }
+}
+
+/// Verification hooks (`--cfg rosu_pp_verif`): read / override the private values `new` computed.
+#[cfg(rosu_pp_verif)]
+impl PathObjectPatternGenerator<'_> {
+    /// `(convert_type, span_count, start_time, end_time)`
+    pub const fn verif_params(&self) -> (u16, i32, i32, i32) {
+        (
+            self.convert_type.verif_bits(),
+            self.span_count,
+            self.start_time,
+            self.end_time,
+        )
+    }
+
+    pub fn verif_override(
+        &mut self,
+        convert_type: u16,
+        span_count: i32,
+        start_time: i32,
+        end_time: i32,
+        segment_duration: i32,
+    ) {
+        self.convert_type = PatternType::verif_from_bits(convert_type);
+        self.span_count = span_count;
+        self.start_time = start_time;
+        self.end_time = end_time;
+        self.segment_duration = segment_duration;
+    }
+
+    pub fn verif_node_sounds(&self) -> &[HitSoundType] {
+        self.node_sounds
     }
 }
